@@ -4,6 +4,17 @@ use crate::tr::*;
 use crate::types::*;
 use syn::*;
 
+/// `&array` where a slice is expected (`&[T; N]` -> `&[T]`): the list of the N components
+pub fn coerce_array_to_slice(v: Val, want: &Ty) -> Val {
+    if let (Ty::Slice(e), Ty::Tuple(ts)) = (want, &v.ty) {
+        if ts.iter().all(|t| join(t, e).is_ok()) {
+            let names: Vec<String> = (0..ts.len()).map(|i| format!("e{}_", i)).collect();
+            return Val { s: format!("(let '({}) := {} in [{}])", names.join(", "), v.s, names.join("; ")), ty: want.clone() };
+        }
+    }
+    v
+}
+
 impl<'a> Tr<'a> {
     /// translate the arguments of a call to a configured function and build the application
     pub fn apply_fn(&mut self, f: &FnInfo, cg: &[Val], recv: Option<&Val>, args: &[&Expr], env: &Env, at: &Expr) -> R<Val> {
@@ -85,6 +96,7 @@ impl<'a> Tr<'a> {
         ptys.extend(f.params.iter().map(|p| p.1.clone()));
         for (x, pt) in args.iter().zip(ptys.iter()) {
             let v = self.pure(x, env, Some(pt))?;
+            let v = coerce_array_to_slice(v, pt);
             join(&v.ty, pt).map_err(|m| unsupported(at, &format!("argument of `{}`: {}", f.key, m)))?;
             a.push(v.s);
         }
